@@ -2,6 +2,7 @@
 from engine import guards as G
 from engine import mir
 from . import common as K
+from . import detectors as D
 from .common import A, fshort
 
 EXPLANATION = (
@@ -59,6 +60,7 @@ def ob_last_slice_prune(run, oid):
 
 
 def check(run):
+    D.ob_state_mutations(run, "O13.6", ['consensus::blockstore::slot_block_data::BlockData', 'consensus::blockstore::slot_block_data::SlotBlockData', 'consensus::blockstore::BlockstoreImpl'], 'completed / last_slice / commitment_cache / misbehaviour flags are once-only records: clearing them re-announces blocks or hides equivocation')
     ob_last_slice_prune(run, "O13.1b")
     from . import C12
     C12.ob_equivocation(run, "O13.1c")
